@@ -338,6 +338,90 @@ Definition run_frames (fx : fixes) (oracle : nat -> orc) (st : est) (fs : list (
   fold_left (add_frame fx oracle) fs st.
 
 (* ------------------------------------------------------------------ *)
+(* Error paths of AddFrame                                              *)
+
+(* Which frame-encoder calls of one AddFrame fail (primary codec; a failing
+   alternate codec in mixed mode is "alternate not chosen", i.e. oc_alt_* = false):
+   ef_a : the first encodeFrame of the step (first frame / forced key frame /
+          overflow filler / dispose-none candidate)        -> AddFrame returns an error
+   ef_b : the dispose-background candidate                 -> candidate dropped
+   ef_c : the key-frame candidate of the 90 % fallback     -> fallback not taken
+   ef_k : the encodeFrame inside encodeKeyframe after the fallback was chosen -> error *)
+Record efail := mkefail { ef_a : bool; ef_b : bool; ef_c : bool; ef_k : bool }.
+
+Definition no_fail : efail := mkefail false false false false.
+
+Definition eff_orc (o : orc) (fl : efail) : orc :=
+  mkorc (oc_bg o && negb (ef_b fl)) (oc_key o && negb (ef_c fl)) (oc_alt_a o) (oc_alt_b o) (oc_alt_c o).
+
+(* Muxer.AddFrame refuses a frame when len(frames) >= MaxFrames *)
+Definition max_frames : Z := 10000.
+
+Definition mux_full (maxf : Z) (st : est) : bool := maxf <=? Z.of_nat (length (e_recs st)).
+
+Definition set_since (st : est) (k : Z) : est :=
+  mkest (e_W st) (e_H st) (e_opts st) (e_recs st) (e_prev st) (e_fcount st) k
+        (e_prect st) (e_pidx st) (e_calls st).
+
+Definition set_recs (st : est) (recs : list mrec) : est :=
+  mkest (e_W st) (e_H st) (e_opts st) recs (e_prev st) (e_fcount st) (e_since st)
+        (e_prect st) (e_pidx st) (e_calls st).
+
+(* AddFrame with its error returns: (state after the call, "returned nil").
+   [keep_dur] = true is the code under test (commit 60cfee7): the previous frame's
+   duration is capped only after the overflow filler has been added; false is the
+   earlier order (cap first), kept for the refutation.
+   A successful call is [add_frame] with the oracle the failures leave. *)
+Definition add_frame_e (fx : fixes) (keep_dur : bool) (maxf : Z)
+    (oracle : nat -> orc) (fails : nat -> efail) (st : est) (f : img * Z) : est * bool :=
+  let '(im, dur) := f in
+  let fl := fails (e_calls st) in
+  let o := eff_orc (oracle (e_calls st)) fl in
+  let ok := (add_frame fx (fun n => eff_orc (oracle n) (fails n)) st f, true) in
+  let full := mux_full maxf st in
+  let W := e_W st in let H := e_H st in
+  let curr := pad W H im in
+  match e_prev st with
+  | None => if ef_a fl || full then (set_calls st, false) else ok
+  | Some prev =>
+      if canvas_eqb prev curr then
+        if mux_dur (e_recs st) (e_pidx st) + dur <? max_duration then ok
+        else if ef_a fl || full then
+          (set_calls (if keep_dur then st
+                      else set_recs st (mux_set_dur (e_recs st) (e_pidx st) max_duration)), false)
+        else ok
+      else
+        let st1 := set_since st (e_since st + 1) in
+        if eo_kmax (e_opts st) <=? e_since st1 then
+          if ef_a fl || full then (set_calls st1, false) else ok
+        else if ef_a fl then (set_calls st1, false)
+        else
+          let '(rN, _, _) := candidate fx (e_opts st) W H prev curr in
+          let disposed := fill_impl W H prev (e_prect st) in
+          let '(rB, _, _) := candidate fx (e_opts st) W H disposed curr in
+          let bR := if oc_bg o then rB else rN in
+          let area := (rx1 bR - rx0 bR) * (ry1 bR - ry0 bR) in
+          if (W * H * 9 / 10 <? area) && oc_key o then
+            if ef_k fl || full then (set_calls st1, false) else ok
+          else if full then
+            (* SetFrameDisposeMode has already run when Muxer.AddFrame refuses the frame *)
+            (set_calls (if oc_bg o then set_recs st1 (mux_set_dispose_bg (e_recs st) (e_pidx st))
+                        else st1), false)
+          else ok
+  end.
+
+(* a history: final state and the frames whose AddFrame returned nil *)
+Fixpoint run_e (fx : fixes) (keep_dur : bool) (maxf : Z) (oracle : nat -> orc) (fails : nat -> efail)
+    (st : est) (fs : list (img * Z)) : est * list (img * Z) :=
+  match fs with
+  | [] => (st, [])
+  | f :: rest =>
+      let '(st1, ok) := add_frame_e fx keep_dur maxf oracle fails st f in
+      let '(stf, acc) := run_e fx keep_dur maxf oracle fails st1 rest in
+      (stf, if ok then f :: acc else acc)
+  end.
+
+(* ------------------------------------------------------------------ *)
 (* Close                                                                *)
 
 Record output := mkout {
